@@ -239,6 +239,9 @@ func run(repo, dir string, seed uint64, nprog, nvalues int, keep bool) int {
 				key := fmt.Sprintf("%s:%d", u.Key, w.sidx)
 				if w.op == "E" {
 					ls.pair(u, de, w.sidx, key, "directed:"+w.note, w.x, w.y)
+					if w.sidx == dD1 || w.sidx == dD0 {
+						ls.add("EA "+key+" "+w.x.String(), &check{unit: u, sidx: w.sidx, what: "EA", kind: "directed:shallow-copy", x: w.x, y: w.x, mirror: -1, de: de})
+					}
 				} else {
 					ls.add("W "+key+" "+w.x.String(), &check{unit: u, sidx: w.sidx, what: "W", kind: "directed:" + w.note, x: w.x, mirror: -1, de: de})
 				}
@@ -248,7 +251,11 @@ func run(repo, dir string, seed uint64, nprog, nvalues int, keep bool) int {
 		vcfg.NilElems = !has(u.Options, "value_type_in_container")
 		for sidx := range u.Schema.Structs {
 			key := fmt.Sprintf("%s:%d", u.Key, sidx)
-			for k := 0; k < nvalues; k++ {
+			nv := nvalues
+			if ui < ndirected {
+				nv = nvalues * 4 // the directed program costs no extra compile time and holds every map shape
+			}
+			for k := 0; k < nv; k++ {
 				v := valgen.Gen(r, u.Schema, sidx, 1+r.Intn(5), vcfg)
 				out.Count(fmt.Sprintf("val.depth.%d", v.Depth()))
 				genOps(r, u, de, sidx, key, v, vcfg, ls, out)
@@ -287,7 +294,7 @@ func run(repo, dir string, seed uint64, nprog, nvalues int, keep bool) int {
 		}
 		// classification against the known defects of the template
 		classes := classifyFail(c, ans, answers)
-		input := map[string]interface{}{"unit": c.unit.Key, "options": c.unit.Options, "struct": c.unit.Schema.Structs[c.sidx].Name,
+		input := map[string]interface{}{"go": goText(c), "unit": c.unit.Key, "options": c.unit.Options, "struct": c.unit.Schema.Structs[c.sidx].Name,
 			"schema": c.unit.SchemaLines(), "op": line, "kind": c.kind, "idl": idlOf(c.unit)}
 		if classes != nil {
 			known++
@@ -355,6 +362,21 @@ func boolStr(b bool) string {
 		return "true"
 	}
 	return "false"
+}
+
+// goText describes the failing call in Go terms.
+func goText(c *check) string {
+	st := c.unit.Schema.Structs[c.sidx]
+	switch c.what {
+	case "W":
+		return fmt.Sprintf("x := <%s %s>; x.Write(binaryProtocol)   // thriftgo -g go:%s", st.Name, c.x.String(), strings.Join(c.unit.Options, ","))
+	case "EI":
+		return fmt.Sprintf("x := <%s %s>; x.DeepEqual(x)", st.Name, c.x.String())
+	case "EA":
+		return fmt.Sprintf("x := <%s %s>; y := new(%s); *y = *x; x.DeepEqual(y)", st.Name, c.x.String(), st.Name)
+	}
+	return fmt.Sprintf("x := <%s %s>; y := <%s %s>; x.DeepEqual(y)   // thriftgo -g go:%s; values in VL notation (docs/BATCH.md §2), n = nil",
+		st.Name, c.x.String(), st.Name, c.y.String(), strings.Join(c.unit.Options, ","))
 }
 
 func idlOf(u *batch.UnitInfo) interface{} {
